@@ -92,6 +92,45 @@ theorem taylorTrajectory_fixed (J : X → X) (hadd : ∀ a b, J (add a b) = add 
     · exact hx
     · exact ih _ (by rw [taylorSteps_commute gen add dt J hadd hgen, hx]) y hy
 
+/-- variant for maps that commute with the generator only for the time factors `dt/l` actually used
+(e.g. Hermitian conjugation and a *real* time step) -/
+theorem taylorLoop_commute_dt (J : X → X) (hadd : ∀ a b, J (add a b) = add (J a) (J b))
+    (hgen : ∀ (l : Nat) x, J (gen (dt / (l : K)) x) = gen (dt / (l : K)) (J x)) :
+    ∀ cnt l r1 r2, J (taylorLoop gen add dt l cnt r1 r2) = taylorLoop gen add dt l cnt (J r1) (J r2) := by
+  intro cnt
+  induction cnt with
+  | zero => intro l r1 r2; rfl
+  | succ n ih =>
+    intro l r1 r2
+    simp only [taylorLoop]
+    rw [ih, hadd, hgen]
+
+theorem taylorSteps_commute_dt (J : X → X) (hadd : ∀ a b, J (add a b) = add (J a) (J b))
+    (hgen : ∀ (l : Nat) x, J (gen (dt / (l : K)) x) = gen (dt / (l : K)) (J x)) (L : Nat) :
+    ∀ n x, J (taylorSteps gen add dt L n x) = taylorSteps gen add dt L n (J x) := by
+  intro n
+  induction n with
+  | zero => intro x; rfl
+  | succ n ih =>
+    intro x
+    simp only [taylorSteps]
+    rw [ih]
+    congr 1
+    exact taylorLoop_commute_dt gen add dt J hadd hgen L 1 x x
+
+theorem taylorTrajectory_fixed_dt (J : X → X) (hadd : ∀ a b, J (add a b) = add (J a) (J b))
+    (hgen : ∀ (l : Nat) x, J (gen (dt / (l : K)) x) = gen (dt / (l : K)) (J x)) (L Nref : Nat) :
+    ∀ nt x, J x = x → ∀ y ∈ taylorTrajectory gen add dt L Nref nt x, J y = y := by
+  intro nt
+  induction nt with
+  | zero => intro x _ y hy; simp [taylorTrajectory] at hy
+  | succ n ih =>
+    intro x hx y hy
+    simp only [taylorTrajectory, List.mem_cons] at hy
+    rcases hy with rfl | hy
+    · exact hx
+    · exact ih _ (by rw [taylorSteps_commute_dt gen add dt J hadd hgen, hx]) y hy
+
 /-- semigroup law of the stepping: `m + n` steps are `n` steps after `m` steps -/
 theorem taylorSteps_add (L : Nat) : ∀ m n x,
     taylorSteps gen add dt L (m + n) x = taylorSteps gen add dt L n (taylorSteps gen add dt L m x) := by
